@@ -87,6 +87,10 @@ def worlds(tier: str, stats: Dict[str, Any]) -> Iterator[Any]:
                         del launch["args"]["correlation"]
                         evs += [launch, kineto.gpu_annotation("gpu_anno", E0 + 51, 3, 7)]
                     yield dict(host=h, dev=d, timing=[dl, delta, ddur], bg=bg, extras=extras, events=evs)
+                    if h and d and bg in (1, 3) and not extras:
+                        stats["transitions"] += 1
+                        yield dict(host=h, dev=d, timing=[dl, delta, ddur], bg=bg, extras=extras, file_order="reversed",
+                                   events=evs[:1] + evs[1:][::-1])
 
 
 def magnitude_worlds():
